@@ -10,8 +10,10 @@ import threading
 import zlib
 from contextlib import contextmanager
 from importlib.abc import MetaPathFinder
-from importlib.machinery import SourceFileLoader
+from importlib.machinery import SOURCE_SUFFIXES, SourceFileLoader
 from importlib.util import decode_source, find_spec, spec_from_loader
+from io import BytesIO
+from tokenize import detect_encoding
 from types import CodeType, ModuleType
 from typing import TYPE_CHECKING, Callable, Dict, Generator, List, Optional, Tuple
 
@@ -171,13 +173,26 @@ class TraceLoader(SourceFileLoader):
                 return super().get_data(path)
             path = source_path
         path_str = str(path)
-        if self._augmentation_context or not any(
-            tracer._should_instrument_file_impl(path_str) for tracer in self._tracers
+        if (
+            self._augmentation_context
+            or not path_str.endswith(tuple(SOURCE_SUFFIXES))
+            or not any(
+                augmenters
+                for tracer, augmenters in self._syntax_augmenters
+                if tracer._should_instrument_file_impl(path_str)
+            )
         ):
+            # not Python source (a data file read through the module's loader), or no tracer has
+            # anything to change in the text: the bytes as they are, in their own encoding
             return super().get_data(path)
         with self.syntax_augmentation_context():
             source = self.get_augmented_source(path)
-            return bytes(source, encoding="utf-8")
+            # the text keeps its PEP 263 coding line, so it is encoded accordingly
+            try:
+                encoding = detect_encoding(BytesIO(super().get_data(path)).readline)[0]
+            except SyntaxError:
+                encoding = "utf-8"
+            return bytes(source, encoding=encoding)
 
     def get_filename(self, name: Optional[str] = None) -> str:
         source_path = super().get_filename(name)
